@@ -20,9 +20,12 @@ RULE = ("random valid screens (arity 1-3, 0..n_max rows, non-ASCII/astral/empty/
         "ExperimentSpace.from_screen saved/loaded 1..4 times; string tables through np.char.encode + h5 + np.char.decode. "
         "Memory layout: 70% of the screens with arity >= 2 (40% otherwise) are built from arrays that hold the same values but are "
         "not plain C-contiguous arrays: Fortran order, vstack(...).T, pandas to_numpy(), strided views, negative strides, slices "
-        "of a wider Fortran parent with <U24 names, boolean row index into a parent (as the hold-out does), read-only arrays; "
+        "of a wider Fortran parent with names in a wider <U dtype, boolean row index into a parent (as the hold-out does), read-only arrays; "
         "oracle: the screen equals its C-ordered twin's observables before and after every cycle, tie: the twin's driver line. "
-        "12% carry mappings whose extra names are longer than every row name (>= 2 cycles). A fixed corpus (zero-row witness, "
+        "12% carry mappings whose extra names are longer than every row name (>= 2 cycles); 10% carry their own exact mapping; 45% of "
+        "all supplied mappings are HAND-MADE tables (ids relabelled by a random permutation, rows shuffled: not sorted, ids not "
+        "arange); 15% of the screens have names / control name with leading, trailing or only whitespace (space, tab, newline, U+3000), "
+        "12% have long ROW names of unequal length (17..130 characters). A fixed corpus (zero-row witness, "
         "every layout on a position-sensitive screen, long mapping names) runs first on every invocation. "
         "Non-trivial: >= 2 rows and (superset mapping or non-ASCII name or both observed and unobserved plates).")
 
@@ -61,7 +64,14 @@ CORPUS.append({"kind": "corpus-long-mapping-names", "cycles": 3, "layout": "fort
                                         [1.0, 2.0, 3.0, 0.0, 0.5, 1.0, 0.25, 2.0], [0, 1, 2, -1, 3, 4, 5, 6]),
                            smap=(["s1", "s2", "s3", LONG_NAMES[2]], [0, 1, 2, 3]))})
 
-
+# hand-made mapping tables (rows not sorted, ids not in table order) and names with leading / trailing whitespace
+CORPUS.append({"kind": "corpus-hand-made-mapping", "cycles": 2,
+               "raw": dict(_ASYM, tmap=(["dd", "control", "b", "zz", "\u00e9", "a", "c"], [0.5, 0.0, 2.0, 1.0, 0.25, 1.0, 3.0],
+                                        [2, -1, 5, 0, 1, 4, 3]), smap=(["s3", "s0", "s1", "s2"], [1, 3, 0, 2]))})
+CORPUS.append({"kind": "corpus-whitespace-names", "cycles": 2,
+               "raw": dict(ctrl=" ", arity=2, tnames=[[" a", "a"], ["a ", " "], ["\ta", "a\n"]],
+                           tdoses=[[1.0, 1.0], [1.0, 1.0], [1.0, 1.0]], snames=["s", " s", "s "], pnames=["p ", "p", "p "],
+                           obs=[0.1, 0.2, 0.3], mask=[True, False, True], tmap=None, smap=None)})
 
 
 def _two_d(x, layout, rng_bits):
@@ -138,7 +148,8 @@ def build_layout(raw, layout):
             obs = df2[["z", "o"]].to_numpy()[:, 1]
     else:
         if layout in ("parent-slice", "holdout-index", "readonly"):
-            tn, sn, pn = tn.astype("<U24"), sn.astype("<U24"), pn.astype("<U24")      # wider dtype than the names need
+            wide = "<U%d" % max(24, max(tn.dtype.itemsize, sn.dtype.itemsize, pn.dtype.itemsize) // 4 + 8)
+            tn, sn, pn = tn.astype(wide), sn.astype(wide), pn.astype(wide)            # wider dtype than the names need
         tn, td = _two_d(tn, layout, 0), _two_d(td, layout, 0)
         sn, pn = _one_d(sn, layout), _one_d(pn, layout)
         if obs is not None:
@@ -175,6 +186,49 @@ def long_superset_mappings(rng, raw):
         big["mask"] = None if raw["mask"] is None else raw["mask"] + [True] * extra
     s = S.build(big)
     return tuple(list(x) for x in s.treatment_mapping), tuple(list(x) for x in s.sample_mapping)
+
+
+def permute_mappings(rng, tmap, smap):
+    """the same name -> id relation as a HAND-MADE table: non-control treatment ids and sample ids relabelled by a random
+    permutation and the table rows shuffled.  Still a valid mapping (0-indexed ids, every key once), but neither sorted by
+    name nor numbered in table order -- a loader / rebuild step that re-sorts the table or regenerates ids as arange
+    (identity on every table batchie's own encoder produces) shows."""
+    tn, td, ti = [list(x) for x in tmap]
+    sn, si = [list(x) for x in smap]
+    real = sorted(set(int(i) for i in ti if int(i) >= 0))
+    perm = list(real)
+    rng.shuffle(perm)
+    relabel = dict(zip(real, perm))
+    ti = [relabel.get(int(i), int(i)) for i in ti]
+    order = list(range(len(tn)))
+    rng.shuffle(order)
+    tn, td, ti = [tn[i] for i in order], [td[i] for i in order], [ti[i] for i in order]
+    sreal = sorted(set(int(i) for i in si))
+    sperm = list(sreal)
+    rng.shuffle(sperm)
+    srel = dict(zip(sreal, sperm))
+    si = [srel[int(i)] for i in si]
+    order = list(range(len(sn)))
+    rng.shuffle(order)
+    sn, si = [sn[i] for i in order], [si[i] for i in order]
+    return (tn, td, ti), (sn, si)
+
+
+def whitespace_rename(rng, raw, variants=None):
+    """rename some of the screen's names to variants with leading / trailing / only whitespace (injective: the pool has
+    no name that starts or ends with whitespace); the control name follows its treatment name"""
+    names = sorted(set([x for r in raw["tnames"] for x in r] + raw["snames"] + raw["pnames"] + [raw["ctrl"]]))
+    ren = {}
+    for x in names:
+        if rng.random() < 0.4:
+            ren[x] = rng.choice(variants(x) if variants else [" " + x, x + " ", "\t" + x, x + "\n", " " + x + " ", x + "\u3000"])
+    f = lambda x: ren.get(x, x)
+    out = dict(raw)
+    out["tnames"] = [[f(x) for x in r] for r in raw["tnames"]]
+    out["snames"] = [f(x) for x in raw["snames"]]
+    out["pnames"] = [f(x) for x in raw["pnames"]]
+    out["ctrl"] = f(raw["ctrl"])
+    return out, bool(ren)
 
 
 def unobserved_counts(s):
@@ -251,6 +305,16 @@ def gen_case(rng, n_max):
         raw["obs"][i] = S.from_bits(rng.choice(NAN_BITS))
     kind = "fresh"
     cycles = 1 + rng.randint(0, 3)
+    ws = False
+    z = rng.random()
+    if z < 0.15:
+        raw, ws = whitespace_rename(rng, raw)
+    elif z < 0.27:
+        # long ROW names of very unequal length (17 .. 130 characters, some non-ASCII): a fixed-width buffer on the way
+        # (`.astype("U16")`, assignment into a preallocated `<U` array) truncates them
+        raw, ws = whitespace_rename(rng, raw, variants=lambda x: [x + "_" + "0123456789abcdef" * k + t for k in (1, 2, 4, 8)
+                                                                    for t in ("", "\u00e9", "\U0001F600")])
+        ws = "long" if ws else False
     x = rng.random()
     if x < 0.30:
         try:
@@ -265,10 +329,26 @@ def gen_case(rng, n_max):
             cycles = 2 + rng.randint(0, 2)
         except Exception:
             pass
+    elif x < 0.52:
+        # the screen's own (exact) mapping, handed back as a hand-made table
+        try:
+            s0 = S.build(raw)
+            raw["tmap"], raw["smap"] = tuple(list(x) for x in s0.treatment_mapping), tuple(list(x) for x in s0.sample_mapping)
+            kind = "own-mapping"
+        except Exception:
+            pass
+    permuted = False
+    if raw.get("tmap") is not None and rng.random() < 0.45:
+        raw["tmap"], raw["smap"] = permute_mappings(rng, raw["tmap"], raw["smap"])
+        permuted = True
+    if raw.get("tmap") is not None:
+        # JSON-able (replay) and independent of numpy scalar types
+        raw["tmap"] = ([str(a) for a in raw["tmap"][0]], [float(b) for b in raw["tmap"][1]], [int(c) for c in raw["tmap"][2]])
+        raw["smap"] = ([str(a) for a in raw["smap"][0]], [int(c) for c in raw["smap"][1]])
     layout = "c"
     if raw["snames"] and rng.random() < (0.7 if raw["arity"] >= 2 else 0.4):
         layout = rng.choice(LAYOUTS)
-    return {"kind": kind, "raw": raw, "cycles": cycles, "layout": layout}
+    return {"kind": kind, "raw": raw, "cycles": cycles, "layout": layout, "permuted": permuted, "whitespace": ws}
 
 
 def obs_bits_list(raw):
@@ -340,7 +420,12 @@ def run_space_case(case, tmp, res, s0):
     cur = e0
     out = None
     for k in range(case["cycles"]):
-        cur.save_h5(fn)
+        try:
+            cur.save_h5(fn)
+        except Exception as e:
+            out = S.err_tok(e)
+            res.fail("ExperimentSpace.save_h5 raises on the space of a valid screen", case, "%s: %s" % (type(e).__name__, e), "a saved space")
+            break
         try:
             cur = ExperimentSpace.load_h5(fn)
         except Exception as e:
@@ -409,6 +494,10 @@ def run(ctx, res):
             res.count("kind." + case["kind"])
             res.count("cycles.%d" % case["cycles"])
             res.count("layout." + case.get("layout", "c"))
+            if case.get("permuted"):
+                res.count("mapping.hand-made-permuted")
+            if case.get("whitespace"):
+                res.count("names.long-row-names" if case["whitespace"] == "long" else "names.whitespace-variants")
             res.count("rows.%s" % ("0" if not raw["snames"] else "1-5" if len(raw["snames"]) <= 5 else "6+"))
             try:
                 line, out, s0 = run_screen_case(case, tmp, res)
@@ -428,7 +517,7 @@ def run(ctx, res):
             names = [x for r in raw["tnames"] for x in r] + raw["snames"] + raw["pnames"]
             nonascii = any(ord(c) > 127 for x in names for c in x)
             mixed = raw["mask"] is not None and len(set(raw["mask"])) == 2
-            if len(raw["snames"]) >= 2 and (case["kind"] == "superset-mapping" or nonascii or mixed):
+            if len(raw["snames"]) >= 2 and (case["kind"] in ("superset-mapping", "own-mapping") or nonascii or mixed):
                 res.nontrivial.add(common.short_hash(raw))
             if nonascii:
                 res.count("names.non-ascii")
